@@ -80,6 +80,6 @@ def units():
             U.append({"name": "%s.%s.ch%d" % (file[:-2], fn, ch), "props": ["C18", "C07", "C19"], "harness_text": h,
                       "template": "units/gen_peak.py", "entry": "h_unit", "enforce": fn, "function": "%s:%s" % (file, fn),
                       "loops": {fn: [inner, outer]}, "timeout": 900, "kind": "enumerated(channels=%d)" % ch,
-                      "tier": "quick" if ch in (2, 3) else "thorough",
+                      "tier": "quick" if ch == 2 else "thorough",
                       "note": "count is a whole number of frames (caller obligation, checked in the float32/double64 writer units)"})
     return U
